@@ -660,57 +660,54 @@ func (e *Engine) findTeddyAt(haystack []byte, at int) *Match {
 // handled by UseBoth/UseDFA strategies instead. See digitPrefilterMaxNFAStates.
 //
 // Algorithm:
-//  1. Use SIMD to find next digit position in haystack
-//  2. Verify match at digit position using lazy DFA + PikeVM
-//  3. If no match, continue from digit position + 1
+//  1. Use SIMD to find the first digit position in haystack
+//  2. Search from that position using lazy DFA + PikeVM
+//
+// Both engines search unanchored from the digit position, so their answer covers
+// every later digit as well: there is no candidate loop (retrying from each
+// following digit would rescan the tail every time, O(n^2) on digit-dense input).
 //
 // Performance:
-//   - Skips non-digit regions with SIMD (15-20x faster for sparse data)
-//   - Total: O(n) for scan + O(k*m) for k digit candidates
+//   - Skips the leading non-digit region with SIMD
+//   - Total: O(n) for scan + one O(n) DFA pass + one PikeVM pass when a match exists
 func (e *Engine) findDigitPrefilter(haystack []byte) *Match {
 	if e.digitPrefilter == nil {
 		return e.findNFA(haystack)
 	}
 
 	atomic.AddUint64(&e.stats.PrefilterHits, 1)
-	pos := 0
+	if len(haystack) == 0 {
+		return nil
+	}
+	return e.findFromFirstDigit(haystack, 0)
+}
 
-	// Acquire pooled state once for the entire loop
+// findFromFirstDigit is the shared body of findDigitPrefilter and findDigitPrefilterAt.
+func (e *Engine) findFromFirstDigit(haystack []byte, at int) *Match {
+	// Use SIMD to find the first digit position
+	digitPos := e.digitPrefilter.Find(haystack, at)
+	if digitPos < 0 {
+		return nil // No digits, no match possible
+	}
+
 	state := e.getSearchState()
 	defer e.putSearchState(state)
 
-	for pos < len(haystack) {
-		// Use SIMD to find next digit position
-		digitPos := e.digitPrefilter.Find(haystack, pos)
-		if digitPos < 0 {
-			return nil // No more digits, no match possible
+	if e.dfa != nil {
+		atomic.AddUint64(&e.stats.DFASearches, 1)
+		if e.dfa.FindAt(state.dfaCache, haystack, digitPos) == -1 {
+			return nil // Unanchored search: no match anywhere from digitPos
 		}
-
-		// Verify match at digit position using DFA
-		if e.dfa != nil {
-			atomic.AddUint64(&e.stats.DFASearches, 1)
-			endPos := e.dfa.FindAt(state.dfaCache, haystack, digitPos)
-			if endPos != -1 {
-				// DFA found potential match - get exact bounds from NFA
-				start, end, found := state.pikevm.SearchAt(haystack, digitPos)
-				if found {
-					return NewMatch(start, end, haystack)
-				}
-			}
-		} else {
-			// No DFA - use PikeVM directly
-			atomic.AddUint64(&e.stats.NFASearches, 1)
-			start, end, found := state.pikevm.SearchAt(haystack, digitPos)
-			if found {
-				return NewMatch(start, end, haystack)
-			}
-		}
-
-		// No match at this digit position, continue searching
-		pos = digitPos + 1
+	} else {
+		atomic.AddUint64(&e.stats.NFASearches, 1)
 	}
 
-	return nil
+	// A match exists (or there is no DFA) - get exact bounds from NFA
+	start, end, found := state.pikevm.SearchAt(haystack, digitPos)
+	if !found {
+		return nil
+	}
+	return NewMatch(start, end, haystack)
 }
 
 // findDigitPrefilterAt searches using digit prefilter starting at position 'at'.
@@ -720,39 +717,7 @@ func (e *Engine) findDigitPrefilterAt(haystack []byte, at int) *Match {
 	}
 
 	atomic.AddUint64(&e.stats.PrefilterHits, 1)
-	pos := at
-
-	// Acquire pooled state once for the entire loop
-	state := e.getSearchState()
-	defer e.putSearchState(state)
-
-	for pos < len(haystack) {
-		digitPos := e.digitPrefilter.Find(haystack, pos)
-		if digitPos < 0 {
-			return nil
-		}
-
-		if e.dfa != nil {
-			atomic.AddUint64(&e.stats.DFASearches, 1)
-			endPos := e.dfa.FindAt(state.dfaCache, haystack, digitPos)
-			if endPos != -1 {
-				start, end, found := state.pikevm.SearchAt(haystack, digitPos)
-				if found {
-					return NewMatch(start, end, haystack)
-				}
-			}
-		} else {
-			atomic.AddUint64(&e.stats.NFASearches, 1)
-			start, end, found := state.pikevm.SearchAt(haystack, digitPos)
-			if found {
-				return NewMatch(start, end, haystack)
-			}
-		}
-
-		pos = digitPos + 1
-	}
-
-	return nil
+	return e.findFromFirstDigit(haystack, at)
 }
 
 // findAhoCorasick searches using Aho-Corasick automaton for large literal alternations.
